@@ -124,3 +124,29 @@ Theorem regression_between_refuted :
     In a (accepted [] ds p) /\ timestamp a < timestamp q /\ reports_less q a /\
     snd (verify_peer_quote now (fst (run_deliveries [] ds)) p q) = false.
 Proof. exact regression_between_refuted_lemma. Qed.
+
+(* ---- the node's quoting duty, ant-node/src/quote.rs ---- *)
+Theorem quote_gap_constant : Consts.quote_time_gap_secs = 10.
+Proof. exact quote_gap_constant_ok. Qed.
+
+Theorem storecost_ok_iff : forall K now self_key q addr,
+  verify_quote_for_storecost K now self_key q addr = SOk <->
+  addr = content q /\ has_expired now q = false /\
+  interp K (signature q) = Sig self_key (bytes_for_signing q).
+Proof. exact storecost_ok_iff_lemma. Qed.
+
+(* whatever quotes_verification hands to the swarm driver verifies for the peer it is attributed to *)
+Theorem forwarded_quotes_verify : forall K now self_peer self_key quotes out,
+  quotes_verification K now self_peer self_key quotes = Some out ->
+  (exists sq, In (self_peer, sq) quotes /\ has_expired now sq = false /\
+              interp K (signature sq) = Sig self_key (bytes_for_signing sq) /\
+              forall p q, In (p, q) out ->
+                In (p, q) quotes /\ check_signed K q p = true /\ p <> self_peer /\
+                content q = content sq /\ around_same_time q sq = true).
+Proof. exact forwarded_quotes_verify_lemma. Qed.
+
+Theorem forged_quote_not_forwarded : forall K now self_peer self_key quotes out p q q0,
+  quotes_verification K now self_peer self_key quotes = Some out ->
+  wf_quote q = true -> wf_quote q0 = true -> check_signed K q0 p = true ->
+  signature q = signature q0 -> signed_fields q <> signed_fields q0 -> ~ In (p, q) out.
+Proof. exact forged_quote_not_forwarded_lemma. Qed.
